@@ -347,4 +347,10 @@ def sum_product(x, y):
     product = (torch.tanh(x / 2) * torch.tanh(y / 2)).clamp(-1 + 1e-7, 1 - 1e-7)
     small = 2 * torch.arctanh(product)
     large = torch.sign(x) * torch.sign(y) * torch.minimum(abs_x, abs_y) + torch.log1p(torch.exp(-torch.abs(x + y))) - torch.log1p(torch.exp(-torch.abs(x - y)))
-    return torch.where(torch.minimum(abs_x, abs_y) < 10.0, small, large)
+    out = torch.where(torch.minimum(abs_x, abs_y) < 10.0, small, large)
+    # For weak LLRs the product of the two tanh terms underflows to zero and the sign (the hard
+    # decision) of the result would be lost; the exact value is non-zero with sign sign(x)*sign(y),
+    # so the magnitude is floored at the smallest normal number.
+    tiny = torch.finfo(out.dtype).tiny
+    floored = torch.sign(x) * torch.sign(y) * torch.clamp(torch.abs(out), min=tiny)
+    return torch.where((x != 0) & (y != 0), floored, out)
